@@ -791,6 +791,8 @@ def unmarshal_array(ct, data, offset, lendian, oobFDs):
 
     while offset < end_offset:
 
+        element_offset = offset
+
         offset += len(pad[tcode](offset))
 
         nbytes, value = unmarshallers[tcode](
@@ -798,6 +800,11 @@ def unmarshal_array(ct, data, offset, lendian, oobFDs):
 
         offset += nbytes
         values.append(value)
+
+        if offset == element_offset:
+            # a zero-size element (e.g. an empty struct) would never reach
+            # end_offset
+            raise MarshallingError('Invalid array encoding')
 
     if not offset == end_offset:
         raise MarshallingError('Invalid array encoding')
